@@ -588,7 +588,178 @@ func genScripts(rng *rand.Rand, n int, thorough bool) []Script {
 }
 
 // Run is the entry point.
+// resyncUnderChurn: node A holds several hundred topics, each with one subscriber. B loses A's session (one-sided
+// fail/join), so A sends its full state again - while its client is unsubscribing all of those topics. However the
+// two interleave, once things are quiet B's view of A is what A really has: nothing.
+func resyncUnderChurn(r *monitor.Run, idx int) {
+	a, err := fed.Start(fmt.Sprintf("c16CA%d", idx), nil, false, nil)
+	if err != nil {
+		r.Inconclusive(err.Error())
+		return
+	}
+	defer func() { go a.Stop() }()
+	b, err := fed.Start(fmt.Sprintf("c16CB%d", idx), []string{a.Gossip}, true, nil)
+	if err != nil {
+		r.Inconclusive(err.Error())
+		return
+	}
+	defer func() { go b.Stop() }()
+	ca, err := wire.Dial("ca", a.B.Addr, mqttx.V5)
+	if err != nil {
+		r.Inconclusive(err.Error())
+		return
+	}
+	defer ca.Close()
+	_, _ = ca.Connect(&mqttx.Packet{ClientID: "churn-a", CleanStart: true}, step)
+	const n = 400
+	for i := 0; i < n; i += 50 {
+		var subs []mqttx.Sub
+		for k := i; k < i+50; k++ {
+			subs = append(subs, mqttx.Sub{Filter: fmt.Sprintf("ch/%d", k), QoS: 0})
+		}
+		if _, err := ca.Subscribe(subs, 0, step); err != nil {
+			r.Inconclusive(err.Error())
+			return
+		}
+	}
+	if !fed.WaitView(b, a, settle) || !fed.WaitView(a, b, settle) {
+		r.Violation("churn.initial_sync", "views not equal before the resynchronisation", nil)
+		return
+	}
+	var wg sync.WaitGroup
+	wg.Add(1)
+	go func() {
+		defer wg.Done()
+		for i := 0; i < n; i++ {
+			_, _ = ca.Unsubscribe([]string{fmt.Sprintf("ch/%d", i)}, step)
+		}
+	}()
+	time.Sleep(time.Duration(idx%5) * time.Millisecond)
+	if !b.F.VerifBouncePeer(a.Name) {
+		r.Inconclusive("churn: peer unknown")
+	}
+	wg.Wait()
+	r.Eval(1)
+	if !fed.WaitView(b, a, settle) {
+		v := b.F.VerifFedView(a.Name)
+		r.Violation("churn.resync:view_of=A", fmt.Sprintf("A's client unsubscribed all %d topics while A was sending its full state to B again; %v later B still believes A subscribes to %d topics (e.g. %v), A has %d", n, settle, len(v), v[:min(len(v), 4)], len(fed.ActualTopics(a))), nil)
+		return
+	}
+	r.Count("resynchronisations_under_unsubscribe_churn", 1)
+	r.Nontrivial(fmt.Sprintf("churn|%d", idx))
+}
+
+// lostAcksThenResume: node A emits n events which B applies, but nothing B sends (the acknowledgements) reaches A
+// any more; then the connection breaks and the stream is resumed (same session, no clean start), while A has nothing
+// new to say. Whatever A sends again, B applies each event once.
+func lostAcksThenResume(r *monitor.Run, idx, n int) {
+	a, err := fed.Start(fmt.Sprintf("c16LA%d", idx), nil, false, nil)
+	if err != nil {
+		r.Inconclusive(err.Error())
+		return
+	}
+	defer func() { go a.Stop() }()
+	b, err := fed.Start(fmt.Sprintf("c16LB%d", idx), []string{a.Gossip}, true, nil)
+	if err != nil {
+		r.Inconclusive(err.Error())
+		return
+	}
+	defer func() { go b.Stop() }()
+	if !fed.WaitView(b, a, settle) || !fed.WaitView(a, b, settle) {
+		r.Inconclusive("lost acks: federation not established")
+		return
+	}
+	bc, err := wire.Dial("bsub", b.B.Addr, mqttx.V5)
+	if err != nil {
+		r.Inconclusive(err.Error())
+		return
+	}
+	defer bc.Close()
+	_, _ = bc.Connect(&mqttx.Packet{ClientID: "la-sub", CleanStart: true}, step)
+	if _, err := bc.Subscribe([]mqttx.Sub{{Filter: "la/#", QoS: 1}}, 0, step); err != nil {
+		r.Inconclusive(err.Error())
+		return
+	}
+	if !fed.WaitView(a, b, settle) {
+		r.Inconclusive("lost acks: view not stable")
+		return
+	}
+	ca, err := wire.Dial("ca", a.B.Addr, mqttx.V5)
+	if err != nil {
+		r.Inconclusive(err.Error())
+		return
+	}
+	defer ca.Close()
+	_, _ = ca.Connect(&mqttx.Packet{ClientID: "la-pub", CleanStart: true}, step)
+	// a first event that is acknowledged normally: the session is established and has history
+	if _, err := ca.Publish(&mqttx.Packet{Topic: "la/warm", QoS: 1, Payload: []byte("la-warm")}, step); err != nil {
+		r.Inconclusive(err.Error())
+		return
+	}
+	if err := bc.WaitPayload("la-warm", settle); err != nil {
+		r.Inconclusive("lost acks: warm-up message not forwarded")
+		return
+	}
+	time.Sleep(300 * time.Millisecond) // its acknowledgement travels back
+	base := len(fed.AppliedBy(b.Name, a.Name))
+	b.Proxy.HoldDir("down", true) // B -> A: acknowledgements get stuck from now on
+	for i := 0; i < n; i++ {
+		if _, err := ca.Publish(&mqttx.Packet{Topic: "la/t", QoS: 1, Payload: []byte(fmt.Sprintf("la-%d", i))}, step); err != nil {
+			r.Inconclusive(err.Error())
+			b.Proxy.HoldDir("down", false)
+			return
+		}
+	}
+	if err := bc.WaitPayload(fmt.Sprintf("la-%d", n-1), settle); err != nil {
+		r.Inconclusive("lost acks: the events did not reach B while only the return path was held")
+		b.Proxy.HoldDir("down", false)
+		return
+	}
+	b.Proxy.CutNow() // the held acknowledgements are lost with the connection
+	b.Proxy.HoldDir("down", false)
+	r.Eval(1)
+	// A says nothing new until the stream is back; then one more event closes the observation
+	time.Sleep(3 * time.Second)
+	if _, err := ca.Publish(&mqttx.Packet{Topic: "la/t", QoS: 1, Payload: []byte("la-end")}, step); err != nil {
+		r.Inconclusive(err.Error())
+		return
+	}
+	if err := bc.WaitPayload("la-end", settle); err != nil {
+		r.Violation("lost_acks.stream_not_resumed", fmt.Sprintf("after the connection had been cut the closing event did not reach B within %v", settle), nil)
+		return
+	}
+	time.Sleep(200 * time.Millisecond)
+	cnt := map[string]int{}
+	for _, ev := range fed.AppliedBy(b.Name, a.Name)[base:] {
+		if ev.Kind == "msg" {
+			cnt[ev.Payload]++
+		}
+	}
+	dup, lost := 0, 0
+	for i := 0; i < n; i++ {
+		switch c := cnt[fmt.Sprintf("la-%d", i)]; {
+		case c == 0:
+			lost++
+		case c > 1:
+			dup++
+		}
+	}
+	if dup > 0 || lost > 0 {
+		r.Violation(fmt.Sprintf("lost_acks.applied_count:dup=%v:lost=%v:more_than_100=%v", dup > 0, lost > 0, n > 100), fmt.Sprintf("%d events were applied by B while their acknowledgements were lost, then the stream broke and was resumed: %d of them were applied twice, %d not at all", n, dup, lost), map[string]any{"events": n})
+		return
+	}
+	r.Count("lost_ack_resume_cases", 1)
+	r.Count("events_acknowledged_into_the_void", int64(n))
+	r.Nontrivial(fmt.Sprintf("lost-acks|%d|%d", idx, n))
+}
+
 func Run(r *monitor.Run) {
+	for i, n := range []int{150, 60, 101, 260}[:r.Pick(2, 4)] {
+		lostAcksThenResume(r, i, n)
+	}
+	for i := 0; i < r.Pick(2, 10); i++ {
+		resyncUnderChurn(r, i)
+	}
 	scs := genScripts(r.Rand("scripts"), r.Pick(24, 200), !r.Quick())
 	npairs := 4
 	var wg sync.WaitGroup
